@@ -56,6 +56,29 @@ def domain(ctx):
             for post in ["", "2", " ", ")", "x", "."]:
                 for funcs in ([SGN], [SGN, ABS]):
                     cases.append({"buf": [ord(c) for c in pre + w + post], "funcs": funcs})
+    # strings that look like other numeric notations, and code points that case-fold / normalise to ASCII letters or digits
+    import unicodedata
+    looks = ["3e-5x", "1e5", "2E3", "1e+5", "1.5e-3", ".5e2", "5.e1", "1e", "e5", "3e-x", "3e -5", "0x1F", "0b101", "0o17", "1_000", "1j", "2i", "inf", "nan", "NaN",
+             "Infinity", "-inf", "1,5", "1'000", "½", "²", "x²", "１２", "٣", "४2", "2\u00a0+\u00a03", "2\u2009x", "x\u200b", "\ufeff2", "2\u2212x", "2\u00d73", "6\u00f72",
+             "2\u22c5x", "\u212a", "\u0130", "\u017f", "\u00b5", "\u2126", "\u00e5", "s\u0323gn", "sgn\u0301", "\u0073gn(x)", "s\u200dgn"]
+    for w in looks:
+        for funcs in ([SGN], [SGN, ABS]):
+            cases.append({"buf": [ord(c) for c in w], "funcs": funcs})
+    special = []
+    for cp in range(0x80, 0x10000 if not ctx.quick else 0x3000):
+        ch = chr(cp)
+        if 0xD800 <= cp <= 0xDFFF:
+            continue
+        try:
+            forms = {ch.lower(), ch.upper(), ch.casefold(), unicodedata.normalize("NFKC", ch), unicodedata.normalize("NFKD", ch)}
+        except Exception:  # noqa
+            forms = set()
+        asciiish = any(f and all(ord(x) < 128 for x in f) and any(x.isalnum() or x in "+-*/^!=()[]. " for x in f) for f in forms)
+        if asciiish or ch.isdigit() or ch.isspace() or ch.isnumeric() or not ctx.quick and ch.isalpha() and cp < 0x600:
+            special.append(cp)
+    for cp in special + [0x1D7D8, 0x1D465, 0x1F600, 0xFF0B, 0xFF0D, 0x2795]:
+        cases.append({"buf": [cp], "funcs": [SGN]})
+        cases.append({"buf": [50, cp, 120], "funcs": [SGN]})
     # long maximal runs (a scanner with a bounded look-ahead window must not cut them)
     for n in [15, 16, 17, 31, 32, 33, 34, 63, 64, 65, 66, 127, 128, 129, 257]:
         for ch in ("7", "1.", "x", "sgn", " ", " \t", "+", "("):
@@ -73,6 +96,7 @@ def domain(ctx):
         n = rng.randint(1, 24)
         cases.append({"buf": [rng.choice(full if rng.random() < 0.3 else ALPHA26[:-3]) for _ in range(n)],
                       "funcs": rng.choice([[SGN], [SGN, ABS]])})
+    rule += "; %d strings in other numeric notations; %d code points that case-fold or normalise to ASCII, alone and between a digit and a letter" % (len(looks), len(special))
     rule += "; maximal runs of 15..257 digits / letters / blanks / operators; function-name words in 36 contexts; seeded random strings up to length 24 (printable ASCII + some non-ASCII)"
     return cases, rule
 
